@@ -8,8 +8,10 @@ const nativePrims = `package PKGNAME
 import (
 	"encoding/json"
 	"fmt"
+	"io"
 	"math"
 	"os"
+	"os/exec"
 	"reflect"
 	"runtime"
 	"strconv"
@@ -229,6 +231,36 @@ func vJSONNoExtra(on bool)            {}
 func vUsedCryptoRand() bool           { return true }
 func vEnvCalls() int                  { return -1 }
 func vEnvCallArg(i int) time.Duration { return -1 }
+var verifProcIn = map[*exec.Cmd]io.WriteCloser{}
+
+// vProcStart starts a real child process that exits with the status written to its stdin.
+func vProcStart() *exec.Cmd {
+	cmd := exec.Command("/bin/sh", "-c", "read x; exit $x")
+	in, err := cmd.StdinPipe()
+	if err != nil {
+		panic(err)
+	}
+	if err := cmd.Start(); err != nil {
+		panic(err)
+	}
+	verifMu.Lock()
+	verifProcIn[cmd] = in
+	verifMu.Unlock()
+	return cmd
+}
+
+// vProcExit makes the child exit with the given status.
+func vProcExit(cmd *exec.Cmd, code int) {
+	verifMu.Lock()
+	in := verifProcIn[cmd]
+	delete(verifProcIn, cmd)
+	verifMu.Unlock()
+	if in != nil {
+		fmt.Fprintf(in, "%d\n", code)
+		in.Close()
+	}
+}
+
 // vGoroutines: goroutines running library code (a frame of this module that is not harness code),
 // the calling goroutine excluded.
 func vGoroutines() int {
@@ -340,6 +372,13 @@ func verifRunReplay(harnesses map[string]func()) {
 		}
 		fmt.Fprintf(f, "{\"id\":%q,\"started\":true}\n", j.ID)
 		f.Sync()
+		// VERIF_REPEAT: run the witness several times in this process (race confirmation: the runtime race
+		// detector needs the two accesses to actually overlap in some run)
+		if rep, _ := strconv.Atoi(os.Getenv("VERIF_REPEAT")); rep > 1 {
+			for k := 1; k < rep; k++ {
+				verifRunOne(fn, j.W)
+			}
+		}
 		r := verifRunOne(fn, j.W)
 		r.ID = j.ID
 		out, _ := json.Marshal(r)
